@@ -80,28 +80,19 @@ def run(ctx):
     loop = ctx.harness(["-mode", "loop", "-seed", ctx.seed, "-n", n_loop]) or []
     louts = ctx.driver("loop", loop) if loop else []
     loop_hist = collections.Counter()
-    variants = collections.Counter()
     ldiffs = 0
     for l, o in zip(loop, louts):
         k = json.loads(l)["k"]
         loop_hist[k] += 1
-        if o in ("ok faithful", "ok repaired"):
-            variants[o[3:]] += 1
-        elif o != "ok":
+        if o != "ok":
             ldiffs += 1
             if ldiffs <= 3:
                 ctx.broken(f"model and implementation disagree on direct call {l[:300]}: {o[:300]}",
                            replay={"call": json.loads(l), "model": o})
     if not loop:
         ctx.broken("direct-call correspondence produced no lines")
-    # The mismatch loop must be explained by ONE variant of the model: the faithful one (current code, known findings
-    # 1 and 3) or the repaired one (candidate fix of notes/C16.md applied upstream).
-    if variants["faithful"] and variants["repaired"]:
-        ctx.broken(f"the mismatch loop of the code is neither the modelled nor the repaired one: {dict(variants)}")
-    variant = "repaired" if variants["repaired"] and not variants["faithful"] else "faithful"
-
     # ---- correspondence: the Lean model recomputes what the real graph/dataplane code produced
-    outs = ctx.driver("model-repaired" if variant == "repaired" else "model", lines) if lines else []
+    outs = ctx.driver("model", lines) if lines else []
     model_hist = collections.Counter()
     diffs = 0
     for l, o in zip(lines, outs):
@@ -158,7 +149,6 @@ def run(ctx):
         "judge_verdicts": dict(judge_hist),
         "judge_signatures": dict(sig_hist),
         "model_verdicts": dict(model_hist),
-        "mismatch_loop_variant_matched": variant,
         "direct_call_kinds": dict(loop_hist),
         "case_kinds": dict(kinds),
         "generator_branches": dict(sorted(tags.items())),
